@@ -486,11 +486,17 @@ def execute(sc, faults=()):
                     try:
                         with shim.openers():
                             hid[0] = logger.add(template, delay=(kind != "i"), **kwargs)
-                    except Exception as e:  # noqa
+                    except OSError as e:
                         if kind != "i":
-                            raise
+                            raise      # add(delay=True) performs no I/O: cannot be an injected fault
                         res = err_of_exc(e)
-                if kind == "w":
+                    except Exception as e:  # noqa: the scenario only uses documented configurations
+                        res = "ADD:" + err_of_exc(e)
+                        ex.monitors.append(("format_table_total", "logger.add(compression=%r, ...) was rejected: %r"
+                                            % (kwargs.get("compression"), e), idx))
+                if res.startswith("ADD:"):
+                    pass
+                elif kind == "w":
                     mid = state["msg"]
                     state["msg"] += 1
                     try:
@@ -554,7 +560,7 @@ def execute(sc, faults=()):
             if kind == "w" and not fired and res != "ok" and not res.startswith("RAISED"):
                 ex.monitors.append(("sink_usable_after_any_fault",
                                     "call #%d reported %s although no fault was injected in it" % (idx, res), idx))
-            if kind == "i" and res != "ok":
+            if (kind == "i" and res != "ok") or res.startswith("ADD:"):
                 break   # add() failed: there is no sink
         if hid[0] is not None:
             sys.stderr = io.StringIO()
